@@ -281,8 +281,10 @@ theorem opsCovered_of_kinds (fst : Bool) (os : List OpA) (h : KindsOk fst os) : 
         without `#`; signed), floating-point immediates (mantissa, optional signed exponent, optional
         `f`), shifted immediates `#imm, lsl #n` (value `imm·2^n`, ∀ n),
       * condition codes (the 17 codes in any case), prefetch operations,
-      * identifiers: label names (not spelled like a register, alias, condition code, shift operator or
-        prefetch type), optionally with relocation `:lo12:`, offset `+n` / `+0xh` and `#`,
+      * identifiers: label names (not spelled like a register, alias or condition code, not beginning with
+        a prefetch type, not *being* a shift operator — names that begin with one, `lsl_loop`, `ror.tab`,
+        `sxtw1`, `mul_vl`, are inside, in every slot and behind every operand kind), optionally with
+        relocation `:lo12:`, offset `+n` / `+0xh` and `#`,
       * memory references `[base]`, `[base, #imm]`, `[base, #:rel:name]`, `[base, index]`,
         `[base, index, op]`, `[base, index, op #n]` with `op ∈ lsl uxtw sxtw sxtx` in any case (∀ n: scale
         `2^n`), base and index scalar registers or sp/zr aliases, optionally `!` or a post-index immediate. -/
@@ -403,6 +405,42 @@ example :
     inDomain a gaps = true ∧ render a gaps = ofString "ldr V3.4S[1],\tEq, [ SP ,w2 , SXTW\t#3 ] ! " ∧
     parseLine (render a gaps) = .ok (expectLine a) ∧
     (match expectLine a with | .instr _ [_, _, .mem m] _ => m.scale | _ => 0) = 8 := by decide +kernel
+
+-- the repaired defect `a64-shiftop-prefix-label`: a label operand that begins with a shift-operator name
+-- directly behind a register is inside the domain and comes back as written (before the repair the
+-- register's optional shift tail swallowed `lsl` and the line lost its last operand)
+example :
+    let a : InstrA := ⟨ofString "cbz", [.reg (.scalar 120 1), .ident ⟨false, none, ofString "lsl_loop", none⟩], none⟩
+    let gaps : List Txt := [[], [32], [], [32], []]
+    inDomain a gaps = true ∧ render a gaps = ofString "cbz x1, lsl_loop" ∧
+    parseLine (render a gaps) = .ok (expectLine a) ∧
+    expectLine a = .instr (ofString "cbz")
+      [.reg { pre := [120], name := [49] }, .ident { reloc := none, name := ofString "lsl_loop", offset := none }] none := by
+  decide +kernel
+
+-- … behind a register, an immediate and an identifier, compact layout, either case, with offset; `mul`
+-- followed by a blank; a shift that is meant stays a shift (`x2, lsl #3` inside a memory reference)
+example :
+    let a : InstrA := ⟨ofString "op", [.reg (.scalar 120 1), .ident ⟨false, none, ofString "ROR.tab", some (ofString "8")⟩,
+      .int ⟨true, false, false, false, 5⟩, .ident ⟨false, none, ofString "sxtw1", none⟩,
+      .ident ⟨false, none, ofString "mul", none⟩], some [ofString "vl"]⟩
+    let gaps : List Txt := [[], [32], [], [], [], [], [], [], [], [], [32], [32], []]
+    inDomain a gaps = true ∧ render a gaps = ofString "op x1,ROR.tab+8,#5,sxtw1,mul // vl" ∧
+    parseLine (render a gaps) = .ok (expectLine a) := by decide +kernel
+
+example :
+    let a : InstrA := ⟨ofString "ldr", [.reg (.scalar 120 0),
+      .mem ⟨.scalar 120 1, .idx (.scalar 120 2) (some ⟨ofString "lsl", some (false, 3)⟩), false, none⟩], none⟩
+    let gaps : List Txt := [[], [32], [], [32], [], [], [], [], [32], [32], [], []]
+    inDomain a gaps = true ∧ render a gaps = ofString "ldr x0, [x1,x2, lsl 3]" ∧
+    parseLine (render a gaps) = .ok (expectLine a) := by decide +kernel
+
+-- the boundary of the domain: a name that *is* a shift operator is outside (it is read as the shift of
+-- the register in front of it), and so is an amount glued to the operator (`lsl3` is a name)
+example :
+    let a : InstrA := ⟨ofString "cbz", [.reg (.scalar 120 1), .ident ⟨false, none, ofString "lsl", none⟩], none⟩
+    let gaps : List Txt := [[], [32], [], [32], []]
+    inDomain a gaps = false ∧ parseLine (render a gaps) ≠ .ok (expectLine a) := by decide +kernel
 
 example : MemOk ⟨.alias (ofString "SP"), .idx (.scalar 119 2) (some ⟨ofString "SXTW", some (true, 3)⟩), true, none⟩ :=
   ⟨.alias _ (by decide), ⟨.scalar _ _ (by decide), fun x hx => by cases hx; decide⟩, fun _ => rfl⟩
